@@ -2,6 +2,7 @@ import NucsModel.Registry
 import NucsModel.Engine.Search
 import NucsModel.MP
 import NucsModel.ProblemOps
+import NucsModel.Examples
 /-!
   Line protocol between the Python harness and the model (one request per line, one answer per
   line).  Lists are comma separated, `-` is the empty list, a domain is `min:max`.
@@ -159,6 +160,14 @@ def step (line : String) : String :=
       | .error e => showEngErr e
       | .ok (best, s) => s!"{match best with | none => "none" | some b => showInts b} {showNats s.stats.toList}"
     | _, _ => "bad-op"
+  | ["example", name, args] =>
+    match exampleByName name (parseInts args) with
+    | none => "bad-op"
+    | some P =>
+      let props := ";".intercalate (P.props.map (fun p =>
+        s!"{repr p.alg}|{",".intercalate (p.vars.map (fun v => s!"{v.1}:{v.2}"))}|{showInts p.params}"))
+      let vars := ",".intercalate (P.vars.map (fun v => s!"{v.1}:{v.2}"))
+      s!"{showBox P.shr} {if vars.isEmpty then "-" else vars} {if props.isEmpty then "-" else props}"
   | ["split", shr, vars, k, v] =>
     ";".intercalate ((splitProblem (parseBox shr) (parseVars vars) (parseNat k) (parseNat v)).map showBox)
   | ["mp", mode, k, ins] =>
